@@ -32,7 +32,7 @@ def instances(tier, seed):
     # replayed set is a seeded sample of the enumerated space; TLC still checks its invariants on all of it
     seqd = [x for x in out if x.get("seqdiff")]
     rest = [x for x in out if not x.get("seqdiff")]
-    n = 420 if tier == "quick" else 1500
+    n = 420 if tier == "quick" else 1000
     pick = rng.sample(rest, min(len(rest), n))
     multi = [dict(x, D=2) for x in rng.sample(rest, min(len(rest), n // 6))]
     return {"all": out, "replay": seqd + pick + multi}
